@@ -26,6 +26,8 @@ func init() {
 		Assumptions: []string{"failure of a sub-match that is returned unchanged to the caller is handled by the caller's frame (checked at the caller)"},
 		Run:         runC09,
 		Mutants: []Mutant{
+			{Name: "stored-statement-list-may-be-a-prefix", File: "pattern/match.go", Rule: "R9.7", KeyPart: "element-wise-comparison-requires-equal-lengths",
+				Old: "\t\t\tif len(ln) != len(rn) {\n\t\t\t\treturn nil, false\n\t\t\t}\n\t\t\tfor i, ll := range ln {\n\t\t\t\tif _, ok := match(m, ll, rn[i]); !ok {\n\t\t\t\t\treturn nil, false\n\t\t\t\t}\n\t\t\t}\n\t\t\treturn r, true\n\t\t}\n\t}\n\n\t{\n\t\tln, ok1 := l.([]*ast.Field)", New: "\t\t\tif len(ln) > len(rn) {\n\t\t\t\treturn nil, false\n\t\t\t}\n\t\t\tfor i, ll := range ln {\n\t\t\t\tif _, ok := match(m, ll, rn[i]); !ok {\n\t\t\t\t\treturn nil, false\n\t\t\t\t}\n\t\t\t}\n\t\t\treturn r, true\n\t\t}\n\t}\n\n\t{\n\t\tln, ok1 := l.([]*ast.Field)"},
 			{Name: "pattern-shares-the-parsers-name-table", File: "pattern/parser.go", Rule: "R9.3", KeyPart: "Parse::pattern-owns-its-bindings-table",
 				Old: "\tbindings := make([]string, len(p.bindings))\n\tfor name, idx := range p.bindings {\n\t\tbindings[idx] = name\n\t}\n", New: "\tif cap(p.names) < len(p.bindings) {\n\t\tp.names = make([]string, len(p.bindings))\n\t}\n\tbindings := p.names[:len(p.bindings)]\n\tfor name, idx := range p.bindings {\n\t\tbindings[idx] = name\n\t}\n",
 				More: []Edit{{File: "pattern/parser.go", Old: "\tbindings map[string]int\n}", New: "\tbindings map[string]int\n\tnames    []string\n}"}}},
@@ -531,6 +533,64 @@ func runC09(c *Ctx) {
 	// child is absent (no else branch, no init statement), so a lookup whose
 	// result is compared with nil confuses "bound to nothing" with "unbound" and
 	// lets a second occurrence of the name bind a different subtree.
+	// R9.7: a recalled name matches only a structurally equal subtree. Where two
+	// lists of nodes are compared element by element, the comparison must first
+	// establish that the lists have the SAME length: with "the candidate is at
+	// least as long" a stored list that is a proper prefix of the candidate
+	// compares equal, and one name is bound to two different subtrees.
+	c.Rule("R9.7", func() {
+		c.Floor("R9.7", 2)
+		matchFn := c.Func("pattern", "match")
+		n := 0
+		for _, f := range c.ModuleFuncs() {
+			if FuncPkgPath(f) != FuncPkgPath(matchFn) || len(f.Blocks) == 0 {
+				continue
+			}
+			elemOf := func(v ssa.Value) (slice, index ssa.Value) {
+				for x := range BackSlice(v, SliceOpts{}) {
+					if ld, ok := x.(*ssa.UnOp); ok && ld.Op == token.MUL {
+						if ia, ok := ld.X.(*ssa.IndexAddr); ok {
+							if _, isSlice := ia.X.Type().Underlying().(*types.Slice); isSlice {
+								return ia.X, ia.Index
+							}
+						}
+					}
+				}
+				return nil, nil
+			}
+			for _, ci := range Calls(f, false) {
+				callee := ci.Common().StaticCallee()
+				if callee == nil || (callee != matchFn && callee.Origin() != matchFn) {
+					continue
+				}
+				args := ci.Common().Args
+				if len(args) != 3 {
+					continue
+				}
+				s1, i1 := elemOf(args[1])
+				s2, i2 := elemOf(args[2])
+				if s1 == nil || s2 == nil || s1 == s2 || i1 != i2 {
+					continue
+				}
+				n++
+				isLenOf := func(v, of ssa.Value) bool {
+					call, ok := v.(*ssa.Call)
+					if !ok {
+						return false
+					}
+					b, ok := call.Call.Value.(*ssa.Builtin)
+					return ok && b.Name() == "len" && call.Call.Args[0] == of
+				}
+				sameLen := EqEdges(f, func(x, y ssa.Value) bool { return isLenOf(x, s1) && isLenOf(y, s2) || isLenOf(x, s2) && isLenOf(y, s1) })
+				ok, path := MustPassEdges(f, ci, sameLen)
+				c.Check(FuncKey(f)+"::element-wise-comparison-requires-equal-lengths#"+itoa(n), ci.Pos(), ok && len(sameLen) > 0, "two node lists are matched element by element here; that is an equality test only after len(a) == len(b) was established (a weaker test lets a list that is a proper prefix of the other compare equal, so a recalled name matches a longer statement or argument list); path without the length test: %s", PathString(f, path))
+			}
+		}
+		if n < 2 {
+			c.Undecided("found only %d element-wise list comparisons in package pattern", n)
+		}
+	})
+
 	c.Rule("R9.6", func() {
 		c.Floor("R9.6", 1)
 		n := 0
